@@ -317,7 +317,11 @@ func c09Source(cfg c09Config, i int) (string, []c09Call) {
 		// after a pattern definition at top level, and a grok that needs that
 		// very pattern without defining it (whatever an earlier, failed check
 		// of ANOTHER script left behind must not make it pass)
-		if i%2 == 0 {
+		if i%3 == 2 {
+			// builtin names are names: a capitalised use is an unknown function
+			// (a positioned check error like any other), not a use call
+			fmt.Fprintf(&sb, "if true {\n  %s(\"%s\")\n}\n", []string{"Use", "USE", "uSe"}[(i/3)%3], c09Name((i+1)%cfg.N))
+		} else if i%2 == 0 {
 			sb.WriteString("add_pattern(\"c09pat\", \"x+\")\nif true {\n   nosuch_function()\n}\n")
 		} else {
 			sb.WriteString("ok = grok(_, \"%{c09pat:w}\")\n")
